@@ -26,6 +26,8 @@ def noTry : Expr → Bool
   | .readA _ => true
   | .raise _ => true
   | .try_ _ _ _ => false
+  | .tryRe _ _ _ => false
+  | .tryFin _ _ => false
 def noTryList : List Expr → Bool
   | [] => true
   | e :: es => noTry e && noTryList es
@@ -56,6 +58,8 @@ def noCatch : Expr → Bool
   | .readA _ => true
   | .raise _ => true
   | .try_ a _ b => noCatch a && isRaise b
+  | .tryRe _ _ _ => false
+  | .tryFin _ _ => false
 def noCatchList : List Expr → Bool
   | [] => true
   | e :: es => noCatch e && noCatchList es
@@ -88,6 +92,8 @@ theorem noCatch_of_noTry : ∀ e : Expr, noTry e = true → noCatch e = true
   | .readA _ => by simp [noCatch]
   | .raise _ => by simp [noCatch]
   | .try_ _ _ _ => by simp [noTry]
+  | .tryRe _ _ _ => by simp [noTry]
+  | .tryFin _ _ => by simp [noTry]
 theorem noCatchList_of_noTry : ∀ es : List Expr, noTryList es = true → noCatchList es = true
   | [] => by simp [noCatchList]
   | e :: es => by
@@ -110,6 +116,8 @@ def namesIn (vis : RefId → Bool) : Expr → Bool
   | .readA _ => true
   | .raise _ => true
   | .try_ a _ b => namesIn vis a && namesIn vis b
+  | .tryRe a _ b => namesIn vis a && namesIn vis b
+  | .tryFin a b => namesIn vis a && namesIn vis b
 def namesInList (vis : RefId → Bool) : List Expr → Bool
   | [] => true
   | e :: es => namesIn vis e && namesInList vis es
@@ -221,6 +229,8 @@ theorem compile_pw (R : RefId → Prop) (vis : RefId → Bool) (hvis : ∀ r, vi
     split
     · exact hh _ _
     · exact hh _ _
+  | .tryRe a c b, k, h, ht, _, _, _ => by simp [noCatch] at ht
+  | .tryFin a b, k, h, ht, _, _, _ => by simp [noCatch] at ht
 theorem compileArgs_pw (R : RefId → Prop) (vis : RefId → Bool) (hvis : ∀ r, vis r = true → R r)
     (ar : CellId → Option Nat) (params : List Val) :
     ∀ (es : List Expr) (k : List Val → Prog) (h : Bool → Err → Prog), noCatchList es = true →
@@ -268,6 +278,12 @@ theorem scope_facts (vis : RefId → Bool) (i : CellId) : ∀ (e : Expr),
   | .try_ a c b => by
     have ha := scope_facts vis i a; have hb := scope_facts vis i b
     simp [scopeExpr, namesIn, noTry, callsBelowId, ha, hb]
+  | .tryRe a c b => by
+    have ha := scope_facts vis i a; have hb := scope_facts vis i b
+    simp [scopeExpr, namesIn, noTry, callsBelowId, ha, hb]
+  | .tryFin a b => by
+    have ha := scope_facts vis i a; have hb := scope_facts vis i b
+    simp [scopeExpr, namesIn, noTry, callsBelowId, ha, hb]
 theorem scopes_facts (vis : RefId → Bool) (i : CellId) : ∀ (es : List Expr),
     namesInList vis (scopeExprs vis es) = true ∧ noTryList (scopeExprs vis es) = noTryList es ∧
     callsBelowIdList i (scopeExprs vis es) = callsBelowIdList i es
@@ -311,6 +327,8 @@ theorem scope_noCatch (vis : RefId → Bool) : ∀ (e : Expr), noCatch e = true 
     intro h
     obtain ⟨k, rfl⟩ := (isRaise_iff b).mp h.2
     exact ⟨scope_noCatch vis a h.1, by simp [scopeExpr, isRaise]⟩
+  | .tryRe _ _ _ => by simp [noCatch]
+  | .tryFin _ _ => by simp [noCatch]
 theorem scopes_noCatch (vis : RefId → Bool) : ∀ (es : List Expr),
     noCatchList es = true → noCatchList (scopeExprs vis es) = true
   | [] => by simp [scopeExprs, noCatchList]
@@ -371,6 +389,14 @@ theorem dead_facts (dead : CellId → Option Bool) (vis : RefId → Bool) (i : C
     refine ⟨fun h => ⟨ha.1 h.1, hb.1 h.2⟩, fun h => ⟨ha.2.1 h.1, ?_⟩, fun h => ⟨ha.2.2 h.1, hb.2.2 h.2⟩⟩
     obtain ⟨k, rfl⟩ := (isRaise_iff b).mp h.2
     simp [deadExpr, isRaise]
+  | .tryRe a c b => by
+    have ha := dead_facts dead vis i a; have hb := dead_facts dead vis i b
+    simp only [deadExpr, namesIn, noCatch, callsBelowId, Bool.and_eq_true]
+    exact ⟨fun h => ⟨ha.1 h.1, hb.1 h.2⟩, fun h => h, fun h => ⟨ha.2.2 h.1, hb.2.2 h.2⟩⟩
+  | .tryFin a b => by
+    have ha := dead_facts dead vis i a; have hb := dead_facts dead vis i b
+    simp only [deadExpr, namesIn, noCatch, callsBelowId, Bool.and_eq_true]
+    exact ⟨fun h => ⟨ha.1 h.1, hb.1 h.2⟩, fun h => h, fun h => ⟨ha.2.2 h.1, hb.2.2 h.2⟩⟩
 theorem deads_facts (dead : CellId → Option Bool) (vis : RefId → Bool) (i : CellId) : ∀ (es : List Expr),
     (namesInList vis es = true → namesInList vis (deadExprs dead es) = true) ∧
     (noCatchList es = true → noCatchList (deadExprs dead es) = true) ∧
